@@ -11,7 +11,7 @@ From Verif Require Import EanM EanSpec CodabarM TwoOfFiveM OneDPropsA.
 From Verif Require Import Code128M Code39M Code39Spec Code93M TabCode93.
 From Verif Require Import DataMatrixM DataMatrixSpec DataMatrixP1 DataMatrixProps.
 From Verif Require Import QRM QRSpec QRP6Compose QRProps.
-From Verif Require Import AztecM AztecSpec AztecProps TabPdf417 Pdf417M Pdf417Spec Pdf417Props.
+From Verif Require Import AztecM AztecSpec AztecProps TabPdf417 Pdf417M Pdf417Spec Pdf417Props ExamplesP.
 From Verif Require Import C11P.
 
 (* ---------- (a) result records ---------- *)
@@ -106,3 +106,13 @@ Theorem C11_colour_scheme : forall (C : Type) (r : outcome barcode) (s1 s2 : C *
   /\ (forall x y c, rd_pixel r1 x y = Some c -> c = fst s1 \/ c = snd s1).
 Proof. exact @with_color_contract. Qed.
 Print Assumptions C11_colour_scheme.
+
+(* the premises of the theorems above are satisfiable: one accepted input per 2-D symbology *)
+Example C11_nonvacuous :
+  accepted (dm_encode [72; 101; 108; 108; 111; 32; 49; 50; 51; 52])
+  /\ bytes [72; 101; 108; 108; 111; 32; 49; 50; 51; 52]
+  /\ accepted (qr_encode [104; 101; 108; 108; 111] 1 0 3)
+  /\ is_bytes [104; 101; 108; 108; 111] /\ valid_encoding 0
+  /\ accepted (az_encode c03_hello 33 0) /\ az_in_domain c03_hello 33
+  /\ accepted (pdf_encode pdf_ex_padpunct 2 3) /\ pdf_bytes pdf_ex_padpunct.
+Proof. exact twod_examples. Qed.
